@@ -138,6 +138,9 @@ var (
 		time.Date(1999, 12, 31, 23, 59, 59, 999000, zMinus),
 		time.Date(1970, 1, 1, 0, 0, 0, 0, zPlus14),
 		time.Date(2, 1, 1, 0, 0, 0, 0, zMinus),
+		// the last representable hours: any conversion to another zone leaves the 4-digit years
+		time.Date(9999, 12, 31, 23, 30, 0, 0, zMinus),
+		time.Date(1, 1, 1, 0, 30, 0, 0, zPlus14),
 	}
 	BytesAlph = [][]byte{{}, {0}, {1, 2}, {2, 1}, {1, 2, 3}, {255}, {1}, {1, 2, 3, 4}, {0, 0}, {250, 251, 252, 253, 254}}
 )
